@@ -131,11 +131,11 @@ def main():
         fails = [o for o in fails if o["id"] != len(lines)]
         run.count(summ[0]["sorts"] + summ[0]["limits"] + summ[0]["statements"])
         run.cov["forward_multisets"] = len(cases)
-        run.cov["forward_cases"] = summ[0]["configs"]
+        run.cov["forward_cases"] = summ[0]["configs"] - 1      # without the negative control
         run.cov["sorts_over_all_permutations"] = summ[0]["sorts"]
         run.cov["limit_applications"] = summ[0]["limits"]
         run.cov["prepared_statements_sorted"] = summ[0]["statements"]
-        run.cov["traces_validated_against_impl"] += summ[0]["configs"]
+        run.cov["traces_validated_against_impl"] += summ[0]["configs"] - 1
         ties = 0
         for c in cases:
             for k in c["cases"]:
